@@ -26,8 +26,10 @@ def race_cases(cases, tier):
     cs = [c for c in cases if c.op == "distcpus"]
     if tier == "quick":
         keep = [c for c in cs if c.tag != "distcpus"] + [c for c in cs if c.tag == "distcpus"][:14]
-        return keep
-    return cs
+        # the error path under the race detector too (each hangs for the watchdog's 10 s on the unchanged tree)
+        fails = [c for c in cases if c.op == "distfail" and c.tag != "distfail-never" and c.args[1] != "1"]
+        return keep + fails[:4]
+    return cs + [c for c in cases if c.op == "distfail"]
 
 
 def check(tier, seed):
